@@ -1847,10 +1847,21 @@ class NodeRequire:
                     if os.path.exists(filepath):
                         modulesrc = self.readModuleSource(filepath)
                     elif environment.isDefined("checkerlang_module_path"):
-                        for modulepath in environment.get(
-                                "checkerlang_module_path",
-                                self.pos
-                        ).value:
+                        # (a program may define a variable of this name)
+                        searchpath = environment.get(
+                            "checkerlang_module_path", self.pos)
+                        if not searchpath.isList() or not all(
+                                entry.isString()
+                                for entry in searchpath.value):
+                            raise CklRuntimeError(
+                                ValueString("ERROR"),
+                                "checkerlang_module_path must be a list "
+                                "of strings but is " + (
+                                    "a list holding other values"
+                                    if searchpath.isList()
+                                    else searchpath.type()),
+                                self.pos)
+                        for modulepath in searchpath.value:
                             filepath = os.path.join(modulepath.value, filename)
                             if os.path.exists(filepath):
                                 modulesrc = self.readModuleSource(filepath)
